@@ -1,13 +1,14 @@
 package main
 
 import (
-	"math"
 	"flag"
 	"fmt"
+	"math"
 	"math/rand"
 	"sort"
 
 	gpb "github.com/openconfig/gnmi/proto/gnmi"
+	epb "github.com/openconfig/gnmi/proto/gnmi_ext"
 	tpb "github.com/openconfig/gnmi/proto/target"
 	"github.com/openconfig/gnmi/target"
 	"verifharness/internal/trace"
@@ -72,10 +73,31 @@ func (c cfgRec) build() *tpb.Configuration {
 		out.Target[t.N] = x
 	}
 	for _, r := range c.R {
-		out.Request[r.N] = &gpb.SubscribeRequest{Request: &gpb.SubscribeRequest_Subscribe{Subscribe: &gpb.SubscriptionList{
-			Prefix: &gpb.Path{Origin: r.C}}}}
+		out.Request[r.N] = buildReq(r.C)
 	}
 	return out
+}
+
+// The content token of a request is carried in different parts of the message, so that two contents may differ in the
+// subscription list (c1/c3, c2/c3), only in the request's extensions (c1/c2), or only in which request it is (c1/c4):
+//
+//	c1  Subscribe{prefix origin "c"}            c2  the same + a registered extension carrying "c2"
+//	c4  Poll                                     anything else: Subscribe{prefix origin <token>}
+func buildReq(c string) *gpb.SubscribeRequest {
+	sub := func(o string) *gpb.SubscribeRequest {
+		return &gpb.SubscribeRequest{Request: &gpb.SubscribeRequest_Subscribe{Subscribe: &gpb.SubscriptionList{Prefix: &gpb.Path{Origin: o}}}}
+	}
+	switch c {
+	case "c1":
+		return sub("c")
+	case "c2":
+		r := sub("c")
+		r.Extension = []*epb.Extension{{Ext: &epb.Extension_RegisteredExt{RegisteredExt: &epb.RegisteredExtension{Id: epb.ExtensionID_EID_EXPERIMENTAL, Msg: []byte("c2")}}}}
+		return r
+	case "c4":
+		return &gpb.SubscribeRequest{Request: &gpb.SubscribeRequest_Poll{Poll: &gpb.Poll{}}}
+	}
+	return sub(c)
 }
 
 func projTarget(n string, t *tpb.Target) tRec {
@@ -89,7 +111,16 @@ func projReq(r *gpb.SubscribeRequest) string {
 	if r == nil {
 		return "-missing-"
 	}
-	return r.GetSubscribe().GetPrefix().GetOrigin()
+	if r.GetPoll() != nil {
+		return "c4"
+	}
+	if e := r.GetExtension(); len(e) > 0 {
+		return string(e[0].GetRegisteredExt().GetMsg())
+	}
+	if o := r.GetSubscribe().GetPrefix().GetOrigin(); o != "c" {
+		return o
+	}
+	return "c1"
 }
 
 func projCfg(c *tpb.Configuration) cfgRec {
@@ -304,7 +335,7 @@ func targetcfgRandom(args []string) error {
 			}
 			for _, q := range rn {
 				if r.Intn(5) > 0 {
-					nx.R = append(nx.R, rRec{q, []string{"c1", "c2", "c3"}[r.Intn(3)]})
+					nx.R = append(nx.R, rRec{q, []string{"c1", "c2", "c3", "c4"}[r.Intn(4)]})
 				}
 			}
 			for _, t := range tn {
